@@ -69,7 +69,17 @@ impl Submissions {
         // here because we're holding the submission lock and thus are the only
         // ones writing to it (but other threads and the kernel can read it).
         let new_tail = tail.wrapping_add(1);
+        #[cfg(a10_verif)]
+        crate::verif::sync_point(
+            crate::verif::SYNC_STORE_SQ_TAIL,
+            shared.submissions_tail.as_ptr(),
+        );
         unsafe { (*shared.submissions_tail.as_ptr()).store(new_tail, Ordering::Release) }
+        #[cfg(a10_verif)]
+        crate::verif::sync_point(
+            crate::verif::SYNC_STORE_SQ_TAIL | crate::verif::SYNC_AFTER,
+            shared.submissions_tail.as_ptr(),
+        );
 
         log::trace!(submission:?, index, tail, new_tail; "queueing submission");
         // NOTE: poisoned above.
